@@ -38,6 +38,10 @@ CONFIGS = {
     # the library is header-only: a user who compiles with -ffast-math compiles the library with it (finite-math-only lets
     # the compiler fold isinf / isnan; the start-up code of such a program also sets the FTZ / DAZ bits)
     "prod-hsw-fastmath": ("g++", PROD + HSW + ["-ffast-math"]),
+    # two more points of the configuration space the library distinguishes: C++14 (StringView is the bundled
+    # string-view-lite instead of std::string_view) and AVX2 without BMI (the non-BMI bit tricks of the AVX2 kernels)
+    "prod-hsw-cxx14": ("g++", PROD + HSW + ["-std=c++14"]),
+    "prod-hsw-nobmi": ("g++", PROD + ["-mavx2", "-mpclmul"]),
     # the adaptive chunk policy clamps its growth at SONIC_ALLOCATOR_MAX_CHUNK_CAPACITY (64 KiB by default, far above the
     # explorer's 200-byte requests); the macro is user-overridable, so a build with a cap of 128 brings the clamp into range
     "asan-hsw-cap128": ("g++", ASAN + HSW + ["-DSONIC_ALLOCATOR_MAX_CHUNK_CAPACITY=128"]),
@@ -165,9 +169,10 @@ CHECKS = {
                 rule="preemption-bounded exhaustive schedule exploration of the real code under a serialising scheduler (hooked lock/shared-access points + operation boundaries); see per-family rules. States/transitions report the number of complete schedules executed."),
     "C15": dict(level="exploration", engine="cfgdigest", mode="digest_compare",
                 jobs=lambda t: J("cfgdigest", "prod-hsw", []) + J("cfgdigest", "prod-wsm", []) + J("cfgdigest", "prod-dyn", []) + J("cfgdigest", "asan-hsw", []) + J("cfgdigest", "asan-wsm", []) + J("cfgdigest", "asan-dyn", []) +
+                J("cfgdigest", "prod-hsw-cxx14", []) + J("cfgdigest", "prod-hsw-nobmi", []) +
                 J("dynkernels", "asan-dyn", [], label="asan-dyn/sse-vs-avx2-kernels") + J("dynkernels", "prod-dyn", [], label="prod-dyn/sse-vs-avx2-kernels"),
                 budget=dict(quick=300, thorough=3000),
-                rule="differential across build configurations {static haswell, static westmere, runtime dispatch} x {production, ASan}: every case of the families gets a digest (accept/reject; parsed value and Dump() bytes; for failures outside string literals the error code; on-demand slice offset/length or error class for 8 paths; Serialize bytes of strings with every special byte at every position) and all six configurations must produce identical digests for every case. Error code/offset inside malformed string literals and all failure offsets are excluded, as the statement allows. Two further jobs call the sse:: and avx2:: kernels of the runtime-dispatch build directly (string decoding, string / container / whitespace skipping, quoting) and demand identical results, because on this machine the dispatched entry points only ever select AVX2."),
+                rule="differential across build configurations {static haswell, static westmere, runtime dispatch} x {production, ASan} plus haswell compiled as C++14 (bundled string_view) and haswell without BMI: every case of the families gets a digest (accept/reject; parsed value and Dump() bytes; for failures outside string literals the error code; on-demand slice offset/length or error class for 8 paths; Serialize bytes of strings with every special byte at every position) and all six configurations must produce identical digests for every case. Error code/offset inside malformed string literals and all failure offsets are excluded, as the statement allows. Two further jobs call the sse:: and avx2:: kernels of the runtime-dispatch build directly (string decoding, string / container / whitespace skipping, quoting) and demand identical results, because on this machine the dispatched entry points only ever select AVX2."),
 }
 
 
